@@ -17,6 +17,7 @@ import (
 	"fmt"
 	"io"
 	"strings"
+	"sync"
 	"sync/atomic"
 
 	"verif/engine"
@@ -76,7 +77,15 @@ func nestingDecoders() []*Decoder {
 	return out
 }
 
+// deepGate admits one case of more than 10001 levels at a time: a decoder that recurses per level (bounded or not)
+// holds a stack of hundreds of megabytes while it runs, and 16 of those at once is more than the check may use.
+var deepGate sync.Mutex
+
 func runNesting(slot int, d *Decoder, shape string, depth int) {
+	if depth > 10001 {
+		deepGate.Lock()
+		defer deepGate.Unlock()
+	}
 	data := nestBody(shape, depth)
 	mk := func() Case {
 		return Case{Kind: "nesting", Decoder: d.Name, Origin: fmt.Sprintf("famI:%s:%d", shape, depth), SiteOff: -1}
